@@ -12,24 +12,27 @@ BTids == {<<"t", "P", <<x, y>>>> : x \in BArgs, y \in BArgs} \cup {<<"t", "P", <
          \cup {<<"t", T, <<x>>>> : T \in {"Q", "R"}, x \in BArgs}
 BProj == {<<"m", t, s>> : t \in BTids, s \in Slots} \cup {<<"own", "m1">>}
 BProj2 == IF Size \in {"S", "M"} THEN {} ELSE {<<"m", <<"m", t, s>>, "m1">> : t \in {x \in BTids : x[2] = "Q"}, s \in Slots}
+\* the traits idiom (typename A::t) and the injected class name
+BTraits == {<<"m", Pm(1), "t">>, <<"m", Pm(2), "t">>, <<"ptr", <<"m", Pm(1), "t">>>>, <<"self">>, <<"ptr", <<"self">>>>}
+           \cup {<<"t", T, <<<<"m", Pm(1), "t">>>>>> : T \in {"Q", "R"}}
 MCBodyTerms ==
-  Wrap1({Pm(1), Pm(2)}) \cup {Bs("int")} \cup BTids \cup BProj \cup BProj2
+  Wrap1({Pm(1), Pm(2)}) \cup {Bs("int")} \cup BTids \cup BProj \cup BProj2 \cup BTraits
   \cup {<<k, p>> : k \in (IF Size \in {"S", "M"} THEN {"ptr"} ELSE {"ptr", "ref", "c"}), p \in BProj}
 MCDfltTerms == Wrap1({Pm(1)}) \cup {Bs("char"), <<"t", "P", <<Pm(1), Pm(1)>>>>, <<"t", "Q", <<Pm(1)>>>>}
 
 \* targets of the alias template: a wrapped parameter, a template-id, a projection
-MCAliasTerms == Wrap1({Pm(1)}) \cup {t \in BTids : Params(t) \subseteq {1}}
+MCAliasTerms == Wrap1({Pm(1)}) \cup {<<"m", Pm(1), "t">>} \cup {t \in BTids : Params(t) \subseteq {1}}
                 \cup {<<"m", t, s>> : t \in {x \in BTids : Params(x) = {1}}, s \in Slots}
 
-G == IF Size = "S" THEN {Bs("int"), <<"ref", Bs("char")>>}
-     ELSE IF Size = "M" THEN {Bs("int"), <<"ref", Bs("char")>>, <<"ptr", Bs("char")>>}
-     ELSE {Bs("int"), <<"ref", Bs("char")>>, <<"ptr", Bs("char")>>, <<"c", Bs("int")>>, <<"ref", <<"c", Bs("int")>>>>}
+G == IF Size = "S" THEN {Bs("int"), <<"ref", Bs("char")>>, Bs("KB")}
+     ELSE IF Size = "M" THEN {Bs("int"), <<"ref", Bs("char")>>, <<"ptr", Bs("char")>>, Bs("KB"), Bs("K2")}
+     ELSE {Bs("K1"), Bs("K2"), Bs("KA"), Bs("CK"), <<"ptr", Bs("KB")>>, Bs("int"), <<"ref", Bs("char")>>, <<"ptr", Bs("char")>>, <<"c", Bs("int")>>, <<"ref", <<"c", Bs("int")>>>>}
 Roots == {<<"t", "P", <<x, y>>>> : x \in G, y \in G} \cup {<<"t", T, <<x>>>> : T \in Tmpl \cup {"V"}, x \in G}
 Q1 == {<<"m", t, s>> : t \in Roots, s \in Slots}
 Q2 == {<<"m", t, s>> : t \in Q1, s \in Slots}
 Q3 == {<<"m", t, s>> : t \in Q2, s \in Slots}
 QV == {t \in Roots : t[2] = "V"}       \* an alias template-id by itself is a query, too
-MCQueryTerms == QV \cup Q1 \cup Q2 \cup Q3 \cup (IF Size \in {"S", "M"} THEN {} ELSE {<<k, q>> : k \in {"ptr", "ref", "c"}, q \in Q1})
+MCQueryTerms == QV \cup Q1 \cup Q2 \cup (IF Size = "S" THEN {} ELSE Q3) \cup (IF Size \in {"S", "M"} THEN {} ELSE {<<k, q>> : k \in {"ptr", "ref", "c"}, q \in Q1})
 
 \* simulation over the large alphabets: draw a few candidates per step instead of enumerating every successor
 SimNext == \/ \E d \in RandomSubset(2, MCDfltTerms) : SetDefault(d)
